@@ -512,6 +512,10 @@ pub fn run_check(def: &PropertyDef, tier: Tier, base_seed: u64) -> CheckOutcome 
                 );
                 harness_error = true;
             }
+            if !reproduced && is_known.is_none() {
+                // not reported as a violation: a replay file that does not reproduce is no evidence
+                continue;
+            }
             match is_known {
                 Some(k) => known_lines.push(format!(
                     "KNOWN-FINDING: property={} {} [class {} x{} e.g. replay={}]",
@@ -659,7 +663,9 @@ pub fn run_check(def: &PropertyDef, tier: Tier, base_seed: u64) -> CheckOutcome 
             );
             harness_error = true;
         }
-        if a.evaluations >= 50 && a.nontrivial == 0 {
+        // (a batch whose runs all ended in a violation has nothing non-trivial either: that is a
+        // finding, reported below, not a harness problem)
+        if a.evaluations >= 50 && a.nontrivial == 0 && a.violations.is_empty() {
             eprintln!("HARNESS-ERROR: scenario {} had no non-trivial run", a.name);
             harness_error = true;
         }
@@ -670,10 +676,13 @@ pub fn run_check(def: &PropertyDef, tier: Tier, base_seed: u64) -> CheckOutcome 
     for l in &violation_lines {
         println!("{l}");
     }
-    let exit_code = if harness_error {
-        2
-    } else if !violation_lines.is_empty() {
+    // a violation whose replay file reproduced in a fresh process is reported as such (exit 1)
+    // even if the batch also had a harness-level problem; without any such violation a harness
+    // problem is exit 2 and nothing is claimed
+    let exit_code = if !violation_lines.is_empty() {
         1
+    } else if harness_error {
+        2
     } else {
         0
     };
